@@ -64,7 +64,21 @@ type C15Case struct {
 	// WarmUp lists histories the process lived through before this one. Only
 	// the comparison of a cold process with a warm one uses it.
 	WarmUp []C15Case `json:"warm_up,omitempty"`
+	// WarmRange names warm-up histories by run number instead of spelling
+	// them out (the soak comparison warms a process up with thousands).
+	WarmRange *WarmRange `json:"warm_range,omitempty"`
 }
+
+// WarmRange: the histories of runs From..To-1 of a seed.
+type WarmRange struct {
+	Seed uint64 `json:"seed"`
+	From int64  `json:"from"`
+	To   int64  `json:"to"`
+}
+
+// soakNoReset, when set, keeps package state of the library across histories
+// (the soak comparison's second pass).
+var soakNoReset bool
 
 // usesDiff reports whether a call reads one of the shared diffs.
 func usesDiff(op string) bool {
@@ -410,19 +424,25 @@ func (w *world) operandPrint() string {
 func checkC15(c C15Case) (*Violation, []string, *caseInfo) {
 	info := &caseInfo{}
 	uninstallOrder()
-	if len(c.WarmUp) > 0 {
+	if len(c.WarmUp) > 0 || c.WarmRange != nil {
 		// what this process did before: other histories, results discarded
-		saved := trace15
-		trace15 = nil
-		for _, wc := range c.WarmUp {
-			wc.WarmUp = nil
-			func() {
-				defer func() { recover() }()
-				checkC15(wc)
-			}()
+		saved, savedSoak := trace15, soakNoReset
+		trace15, soakNoReset = nil, true
+		warm := func(wc C15Case) {
+			wc.WarmUp, wc.WarmRange, wc.Reorder = nil, nil, 0
+			defer func() { recover() }()
+			checkC15(wc)
 		}
-		trace15 = saved
-	} else {
+		if r := c.WarmRange; r != nil {
+			for run := r.From; run < r.To; run++ {
+				warm(genCase15(newChooser(runSeed(r.Seed, "C15", run))))
+			}
+		}
+		for _, wc := range c.WarmUp {
+			warm(wc)
+		}
+		trace15, soakNoReset = saved, savedSoak
+	} else if !soakNoReset {
 		simos.ResetGlobals() // a history is one process lifetime: start it with fresh package state
 	}
 	a, errA := readDoc(c.A, c.YAML)
@@ -652,7 +672,7 @@ func checkC15(c C15Case) (*Violation, []string, *caseInfo) {
 	// fresh process state and another order, return what they returned above.
 	// The initial diffs are reflection copies of the pristine twins, so this
 	// pass begins without having called Diff at all.
-	if c.Reorder != 0 && len(c.Calls) > 1 {
+	if c.Reorder != 0 && len(c.Calls) > 1 && !soakNoReset {
 		stats.probe("history-re-executed-in-another-order")
 		simos.ResetGlobals()
 		ra, errRA := readDoc(c.A, c.YAML)
@@ -863,6 +883,15 @@ func genCase15(c *Chooser) C15Case {
 	}
 	docs := lineage(c, g, 1)
 	a, b := docs[0], docs[1]
+	if c.Chance(1, 6) {
+		// B is A with its arrays in another order (equal as sets and multisets):
+		// anything that identifies a document by an order-insensitive summary
+		// meets two different documents with the same summary
+		b = shuffleArrays(c, a, false)
+		if c.Chance(1, 2) {
+			b = edit(c, g, b)
+		}
+	}
 	// make multi-add / multi-remove list hunks and key removals likely
 	if a.K == 'o' && c.Chance(2, 3) {
 		a.set("list", &Val{K: 'a', Elems: []*Val{vn(1)}})
@@ -885,6 +914,49 @@ func genCase15(c *Chooser) C15Case {
 		prose := "the quick brown fox jumps over the lazy dog and then keeps running well past the eightieth column of this page"
 		a.set("prose", vs(prose))
 		b.set("prose", vs(prose+" and on"))
+	}
+	if a.K == 'o' && b.K == 'o' && c.Chance(1, 20) {
+		// a wide object under three levels of objects, a few members changed:
+		// where code that treats large containers specially takes its other path
+		wide := func(changed map[int]bool) *Val {
+			w := &Val{K: 'o'}
+			for i := 0; i < 72; i++ {
+				v := vn(float64(i))
+				if changed[i] {
+					v = vs(fmt.Sprintf("changed-%d", i))
+				}
+				w.set(fmt.Sprintf("k%02d", i), v)
+			}
+			l3 := &Val{K: 'o'}
+			l3.set("z", w)
+			l2 := &Val{K: 'o'}
+			l2.set("y", l3)
+			return l2
+		}
+		ch := map[int]bool{}
+		for i := 0; i < c.Range(2, 6); i++ {
+			ch[c.Int(72)] = true
+		}
+		a.set("wide", wide(nil))
+		b.set("wide", wide(ch))
+	}
+	if a.K == 'o' && b.K == 'o' && c.Chance(1, 8) {
+		// a long list of values no other history has used (whatever a process
+		// remembers about list elements grows with each of these)
+		base := float64(c.Int(1 << 30))
+		series := func(change int) *Val {
+			l := &Val{K: 'a'}
+			for i := 0; i < 300; i++ {
+				x := base + float64(i)
+				if i == change {
+					x = -x - 1
+				}
+				l.Elems = append(l.Elems, vn(x))
+			}
+			return l
+		}
+		a.set("series", series(-1))
+		b.set("series", series(c.Int(300)))
 	}
 	if a.K == 'o' && b.K == 'o' && c.Chance(1, 30) {
 		// a large keyed set: most members keep their identity, a few change
